@@ -137,7 +137,7 @@ pub fn run(ctx: &mut Ctx) {
         ctx.count("empty_argument_vectors", 1);
         check_exec(ctx, &v, "empty-position");
     });
-    let n = ctx.n(400, 20_000);
+    let n = ctx.n(3000, 20_000);
     ctx.family("random", n, |ctx, rng, i| {
         let nargs = rng.below(21);
         let mut v = vec![if rng.chance(300) { rand_word(rng, 12) } else { "prog".to_string() }];
@@ -158,7 +158,7 @@ pub fn run(ctx: &mut Ctx) {
         }
         check_exec(ctx, &v, "random");
     });
-    let np = ctx.n(60, 2000);
+    let np = ctx.n(400, 2000);
     ctx.family("pipelines", np, |ctx, rng, _i| {
         let n = rng.range(2, 5) as usize;
         let stages: Vec<Vec<String>> = (0..n).map(|_| (0..rng.below(4)).map(|_| rand_word(rng, 16)).collect()).collect();
